@@ -682,6 +682,19 @@ int main(int argc, char **argv)
         run_strings("bytes:parse_sbml", B, true);
         bound += "; all byte strings of length <= " + std::to_string(B.maxlen) + " over " + std::to_string(bytes.size()) + " bytes";
     }
+    // ---------------- (a') literal shapes: every string of length <= 5 over the bytes a numeric literal / implicit
+    // multiplication token is made of (the tokenizer's number rule needs a digit after the dot, so shapes such as "1.e1"
+    // become an implicit-multiplication token that the numeric scanner then swallows whole) -- added after seeded change
+    // C18 (null symbol part for "1.e5") escaped the length-3 bound of the quick tier
+    if (!past_deadline()) {
+        Strings LS;
+        LS.alpha = {"1", "0", ".", "e", "E", "x", "-", "+"};
+        LS.maxlen = thorough ? 6 : 5;
+        LS.build();
+        run_strings("literal-shapes:parse", LS, false);
+        run_strings("literal-shapes:parse_sbml", LS, true);
+        bound += "; all strings of length <= " + std::to_string(LS.maxlen) + " over the literal bytes {1,0,.,e,E,x,-,+}";
+    }
     // ---------------- (b) token sequences
     Strings T, TS;
     T.alpha = {"x", "2", "2x", "1.5", "+", "-", "*", "/", "**", "(", ")", ",", "<", "==", "&", "|", "~", "Piecewise", "sin", "True"};
